@@ -465,6 +465,7 @@ def run_check(plugin, tier: str, seed: int, replay: str | None = None) -> int:
         if not samples and cases:
             samples.append({"op": corr.op, "args": cases[0], "impl": impl_outs[0], "model": model_outs[0]})
         log(f"[corr] {corr.op}: {len(cases)} cases, disagreements so far {len(disagreements)}")
+        _drop_generated_classes()
 
     for e in corr_errors:
         log("[corr] ERROR " + e)
@@ -536,6 +537,7 @@ def run_check(plugin, tier: str, seed: int, replay: str | None = None) -> int:
             except Exception:  # noqa: BLE001
                 corr_errors.append(f"oracle {orc.name}: generator crashed\n{traceback.format_exc()[-600:]}")
             sweep_counts[orc.name] = n
+            _drop_generated_classes()
             if sweep_found:
                 break
         log(f"[sweep] oracles on the implementation: {sweep_counts}" + (f" -> property fails: {sweep_found['message'][:200]}" if sweep_found else ""))
@@ -616,6 +618,16 @@ def run_check(plugin, tier: str, seed: int, replay: str | None = None) -> int:
     json.dump(ev, open(os.path.join(VERIF, "evidence", f"{prop}.json"), "w"), indent=1, ensure_ascii=False, default=str)
     log(f"[done] {prop} tier={tier} seed={seed} exit={exit_code} wall={ev['wall_s']}s")
     return exit_code
+
+
+def _drop_generated_classes():
+    """binding-layer plug-ins build thousands of dataclass universes; see bindcases.drop_universes"""
+    bc = sys.modules.get("bindcases")
+    if bc is not None and hasattr(bc, "drop_universes"):
+        try:
+            bc.drop_universes()
+        except Exception:  # noqa: BLE001, S110
+            pass
 
 
 def failing_input_search(plugin, disagreements, all_cases, rng, tier, log):
